@@ -27,6 +27,11 @@ CLAIMED = {
     "C05": ("§4 C05", "Refinement: every implementation step must be one of the outcomes the specification's "
             "operator admits for that call from the logged pre-state (full state comparison: order, both tables, "
             "attributes, result class), for TLC-enumerated inputs and random histories."),
+    "C06": ("§4 C06", "TLC evaluates the set-theoretic definitions of spec/Derived.tla (degree, size, order, "
+            "neighbours, lookup, duplicates, isolates, singletons, empty, maximal, the seven filter modes) on the "
+            "logged state and compares them with what view and stat objects held across mutations report in "
+            "asdict / aslist / asnumpy / aspandas / multi form, at every step of random histories and on every "
+            "TLC-enumerated small hypergraph under relabellings and insertion orders."),
 }
 NOTE = ("Trusted: TLC, the harness projection/adapter (self-tested on every run by corrupting recorded fields), "
         "and the bounded universes listed in the evidence; outside them only random histories.")
